@@ -77,6 +77,11 @@ type remoteAuthorizer struct {
 type authorizationInformation struct {
 	Headers http.Header `json:"headers"`
 	Payload any         `json:"payload"`
+	// The response as received. When the information is taken from the cache, the payload is decoded
+	// from it again. Otherwise, the types of the values would depend on the encoding used by the cache
+	// (e.g. integers of a YAML response would become floats), and not on the response.
+	RawPayload  []byte `json:"raw_payload,omitempty"`
+	ContentType string `json:"content_type,omitempty"`
 }
 
 func (ai *authorizationInformation) addHeadersTo(headerNames []string, ctx heimdall.Context) {
@@ -161,6 +166,12 @@ func (a *remoteAuthorizer) Execute(ctx heimdall.Context, sub *subject.Subject) e
 
 			if err = json.Unmarshal(entry, &ai); err == nil {
 				logger.Debug().Msg("Reusing authorization information from cache")
+
+				if len(ai.RawPayload) != 0 {
+					if ai.Payload, err = a.decodePayload(ctx, ai.ContentType, ai.RawPayload); err != nil {
+						return err
+					}
+				}
 
 				// the cached response might originate from a rule with other expressions
 				if err = a.verify(ctx, ai.Payload); err != nil {
@@ -284,20 +295,31 @@ func (a *remoteAuthorizer) doAuthorize(
 
 	defer resp.Body.Close()
 
-	data, err := a.readResponse(ctx, resp)
+	rawData, err := a.readResponse(ctx, resp)
 	if err != nil && !errors.Is(err, errNoContent) {
 		return nil, err
 	}
 
-	err = a.verify(ctx, data)
+	authInfo := &authorizationInformation{Headers: resp.Header}
+
+	if rawData != nil {
+		authInfo.RawPayload = rawData
+		authInfo.ContentType = resp.Header.Get("Content-Type")
+
+		if authInfo.Payload, err = a.decodePayload(ctx, authInfo.ContentType, rawData); err != nil {
+			return nil, err
+		}
+	}
+
+	err = a.verify(ctx, authInfo.Payload)
 	if err != nil {
 		return nil, err
 	}
 
-	return &authorizationInformation{Headers: resp.Header, Payload: data}, nil
+	return authInfo, nil
 }
 
-func (a *remoteAuthorizer) readResponse(ctx heimdall.Context, resp *http.Response) (any, error) {
+func (a *remoteAuthorizer) readResponse(ctx heimdall.Context, resp *http.Response) ([]byte, error) {
 	logger := zerolog.Ctx(ctx.AppContext())
 
 	if !(resp.StatusCode >= http.StatusOK && resp.StatusCode < http.StatusMultipleChoices) {
@@ -319,7 +341,11 @@ func (a *remoteAuthorizer) readResponse(ctx heimdall.Context, resp *http.Respons
 			CausedBy(err)
 	}
 
-	contentType := resp.Header.Get("Content-Type")
+	return rawData, nil
+}
+
+func (a *remoteAuthorizer) decodePayload(ctx heimdall.Context, contentType string, rawData []byte) (any, error) {
+	logger := zerolog.Ctx(ctx.AppContext())
 
 	decoder, err := contenttype.NewDecoder(contentType)
 	if err != nil {
